@@ -75,6 +75,19 @@ func c15State(w *wctx, p *position.Position, r *refchess.Pos) {
 			run.Violate(cls, fmt.Sprintf("value %d but colour-mirrored position %d (both from the mover's view)", ref, mv), rep(map[string]interface{}{"mirror_fen": mr.FEN()}))
 		}
 	}
+	// an option change between two evaluations of the same position by the same evaluator: the value is that of a fresh
+	// evaluator under the new setting, and the original value again after switching back
+	saved := config.Settings.Eval.UseAdvancedPieceEval
+	config.Settings.Eval.UseAdvancedPieceEval = !saved
+	vAlt, vAltFresh := u.ev.Evaluate(p), evaluator.NewEvaluator().Evaluate(p)
+	config.Settings.Eval.UseAdvancedPieceEval = saved
+	run.AddEvals(3)
+	if vAlt != vAltFresh {
+		run.Violate("depends-on-earlier-evaluation:option-change", fmt.Sprintf("after toggling Eval_AdvPiece the reused evaluator gives %d, a fresh one %d", vAlt, vAltFresh), rep(nil))
+	}
+	if vBack := u.ev.Evaluate(p); vBack != v {
+		run.Violate("depends-on-earlier-evaluation:option-change", fmt.Sprintf("after toggling Eval_AdvPiece and back the reused evaluator gives %d, before %d", vBack, v), rep(nil))
+	}
 	// insufficient material => 0
 	if p.HasInsufficientMaterial() {
 		run.Count("insufficient_material_states", 1)
